@@ -33,28 +33,32 @@ DTS = [1.0, 0.5, 0.25, 1.3, 0.1, 2.0]
 def gen_rel_cases(rng, n):
     cases = []
     for i in range(n):
-        fam = ["neuron", "synapse", "connection", "reducer"][i % 4]
+        fam = ["neuron", "synapse", "connection", "reducer", "record"][i % 5]
         seed = rng.randrange(1 << 30)
         dt = rng.choice(DTS)
         dt2 = rng.choice([d for d in DTS if d != dt])
         warm = rng.choice([0, 0, 2, 5])
         if fam == "neuron":
-            spec = {"cls": c11.NEURONS[(i // 4) % 8], "shape": rng.choice([[3], [2, 2]]), "dt": dt, "batch": rng.choice([1, 2])}
+            spec = {"cls": c11.NEURONS[(i // 5) % 8], "shape": rng.choice([[3], [2, 2]]), "dt": dt, "batch": rng.choice([1, 2])}
             target = {"dt": dt2, "batchsz": rng.choice([1, 2, 3])}
         elif fam == "synapse":
             k = rng.choice([0, 1, 3])
-            spec = {"cls": c11.SYNAPSES[(i // 4) % 4], "shape": rng.choice([[3], [2, 2]]), "dt": dt, "batch": rng.choice([1, 2]),
+            spec = {"cls": c11.SYNAPSES[(i // 5) % 4], "shape": rng.choice([[3], [2, 2]]), "dt": dt, "batch": rng.choice([1, 2]),
                     "kw": {"delay": k * dt}}
             target = {"dt": dt2, "delay": rng.choice([0.0, dt2, 2.5 * dt2, 3 * dt2]), "batchsz": rng.choice([1, 2, 3]),
                       "inplace": rng.random() < 0.5}
         elif fam == "connection":
-            cls = ["LinearDense", "LinearDirect", "LinearLateral", "Conv2D"][(i // 4) % 4]
+            cls = ["LinearDense", "LinearDirect", "LinearLateral", "Conv2D"][(i // 5) % 4]
             spec = dict(c11.conn_spec(rng, cls, dt, rng.choice([None, 2 * dt])), batch=rng.choice([1, 2]))
             target = {"dt": dt2, "batchsz": rng.choice([1, 2, 3])}
             if rng.random() < 0.5:
                 target["synapse"] = {"cls": rng.choice(c11.SYNAPSES)}
+        elif fam == "record":
+            spec = {"cls": "RecordTensor", "dt": dt, "duration": rng.choice([0.0, dt, 2.5 * dt, 3 * dt]), "inclusive": rng.random() < 0.5,
+                    "shape": rng.choice([[2], [2, 2]]), "dtype": rng.choice(["float", "bool", "int"]), "uninit": rng.random() < 0.2}
+            target = {"dt": dt2, "duration": rng.choice([0.0, dt2, 2.5 * dt2, 4 * dt2]), "inclusive": not spec["inclusive"]}
         else:
-            spec = {"cls": REDUCERS[(i // 4) % 6], "dt": dt, "duration": rng.choice([0.0, dt, 3 * dt]), "inplace": rng.random() < 0.5}
+            spec = {"cls": REDUCERS[(i // 5) % 6], "dt": dt, "duration": rng.choice([0.0, dt, 3 * dt]), "inplace": rng.random() < 0.5}
             target = {"dt": dt2, "duration": rng.choice([0.0, dt2, 2.5 * dt2]), "inplace": rng.random() < 0.5}
         attrs = list(target)
         rng.shuffle(attrs)
@@ -124,7 +128,7 @@ def cmp_model(c, obs, tree):
 def run(ctx):
     rng = random.Random(ctx["seed"])
     quick = ctx["tier"] == "quick"
-    rel = gen_rel_cases(rng, 160 if quick else 2400)
+    rel = gen_rel_cases(rng, 250 if quick else 3000)
     mod = gen_model_cases(rng, 120 if quick else 1200)
     k = 8
     allc = rel + mod
